@@ -1,4 +1,6 @@
 CONSTANTS
+  NParts = 1
+  Part = 0
   NConns = 2
   NUp = 0
   NDown = 0
@@ -10,10 +12,12 @@ CONSTANTS
   StdinClose = FALSE
   Mode = "socks"
   DialFails = FALSE
+  SfScripted = TRUE
   EnvLite = TRUE
   AsIs_Spin = FALSE
   AsIs_SharedConfig = FALSE
   Mut = "none"
+
 SPECIFICATION GenSpec
 INVARIANTS TypeOK CopyLaw SocksClosedOnce SfClosedOnce ReplyLaw ConfigIsolation ConfigSeenWhenDue LoopEndsOnlyOnPerm LnClosedByLoop NoSpin NoLeak NoStuck
 CHECK_DEADLOCK FALSE
